@@ -212,3 +212,9 @@ func isNamed(t types.Type, pkg, name string) bool {
 }
 
 func conStr(s string) StrV { return StrV{Conc: true, S: s} }
+
+// nilSlice is the nil slice with well-formed (zero) header terms.
+func (ex *Exec) nilSlice() SliceV {
+	z := ex.Ctx.BV(64, 0)
+	return SliceV{Off: z, Len: z, Cap: z}
+}
